@@ -96,10 +96,10 @@ def run(names, deep=False, timeout=None):
         try:
             p = subprocess.run(cmd, stdout=subprocess.PIPE, stderr=subprocess.DEVNULL, timeout=timeout)
             lines = [l for l in p.stdout.decode('utf-8', 'replace').split('\n') if l.startswith(('PASS', 'FAIL'))]
-            if not lines and p.returncode < 0:
+            if not lines and (p.returncode < 0 or p.returncode == 101):
                 # killed by a signal (SIGABRT): a panic escaped catch_unwind - raised inside a Drop while unwinding or in a no-unwind context
                 res.append({'check': n, 'status': 'ABORT', 'bound': BOUNDS.get(n, ''), 'cmd': ' '.join(cmd),
-                            'detail': 'the oracle process was killed by signal %d while running %s: a panic of the library escaped every handler (panic inside Drop / while unwinding)' % (-p.returncode, n)})
+                            'detail': 'the oracle process died (%s) while running %s: a panic of the library escaped every handler (panic inside Drop / while unwinding, or in code the oracle runs unguarded)' % ('signal %d' % -p.returncode if p.returncode < 0 else 'panic exit 101', n)})
             elif not lines:
                 res.append({'check': n, 'status': 'ERROR', 'detail': 'no verdict line (exit %d)' % p.returncode})
             traces = [l.split() for l in p.stdout.decode('utf-8', 'replace').split('\n') if l.startswith('TRACE ')]
